@@ -45,7 +45,7 @@ def selftest(pid, jobs=8):
         bank, path = w
         # restrict the run to this property's check
         meta = run.parse_header(path)
-        r = run.run_one(bank, path)
+        r = run.run_one(bank, path, only=pid)
         return r
 
     # run_one checks every property listed in the header; keep only this property's verdict
